@@ -115,6 +115,10 @@ func (d *DB) SyncKeyValue() error {
 	return nil
 }
 
+// Close is a no-op so that the recording store survives the Close of the database
+// stack built on top of it (a harness keeps using it across simulated restarts).
+func (d *DB) Close() error { return nil }
+
 func (d *DB) NewBatch() ethdb.Batch { return &batch{db: d, inner: d.KeyValueStore.NewBatch()} }
 
 func (d *DB) NewBatchWithSize(size int) ethdb.Batch {
